@@ -119,6 +119,11 @@ def api_run(spec):
             lg.removeHandler(cap)
         obs["events"] = [[lv, nm, _norm(m, top)] for lv, nm, m in cap.recs]
         out.append(obs)
+        rl = spec.get("relink_after")
+        if rl and rl["index"] == len(out) - 1:
+            # the environment changes between two analyses of one interpreter: a link is re-pointed
+            os.unlink(rl["link"])
+            os.symlink(rl["target"], rl["link"])
     return {"obs": out, "seam_stats": dict(seams.STATS)}
 
 
